@@ -213,7 +213,7 @@ pub fn run_case(p: &Plan, replay: Option<Trace>, record_trace: bool) -> Output {
                     break;
                 }
             }
-            let bundle = state.parallel_take_bundle(BundleRetention::Reverts);
+            let bundle = crate::oracle::take_bundle_checked(&mut state, BundleRetention::Reverts, &mut findings);
             if block.error.is_none() && let Some(d) = diff_bundles(&bundle, &ref_bundle) {
                 findings.push(Finding { property: "C10", class: "commit.bundle".into(), detail: d });
             }
